@@ -1,0 +1,98 @@
+//go:build !verif
+// +build !verif
+
+/*
+ * Copyright 2023 CloudWeGo Authors
+ *
+ * Licensed under the Apache License, Version 2.0 (the "License");
+ * you may not use this file except in compliance with the License.
+ * You may obtain a copy of the License at
+ *
+ *     http://www.apache.org/licenses/LICENSE-2.0
+ *
+ * Unless required by applicable law or agreed to in writing, software
+ * distributed under the License is distributed on an "AS IS" BASIS,
+ * WITHOUT WARRANTIES OR CONDITIONS OF ANY KIND, either express or implied.
+ * See the License for the specific language governing permissions and
+ * limitations under the License.
+ */
+
+package shmipc
+
+// verification hook points (build tag verif); see verif_hooks_on.go
+const (
+	vpPopReserved = iota
+	vpPopLoopTop
+	vpPopHasNext
+	vpPopCleared
+	vpPopInUsed
+	vpPushReset
+	vpPushLoadedTail
+	vpPushCASed
+	vpPushLinked
+	vpLinkNextMid
+	vpQPopNonEmpty
+	vpQPopLoad1
+	vpQPopLoad2
+	vpQPopBeforeHead
+	vpQPutChecked
+	vpQPutStore1
+	vpQPutStore2
+	vpQPutBeforeTail
+	vpMNWStored0
+	vpMNWBeforeStore1
+	vpWakeMarked
+	vpWakeSlow
+	vpSendLoopBeforeCAS
+	vpWriteEventEnter
+	vpSessCloseCASed
+	vpSessCloseBeforeCh
+	vpSessTeardownBegin
+	vpSessTeardownBeforeUnmap
+	vpSessTeardownEnd
+	vpEventDispatch
+	vpPollPopped
+	vpPollBeforeMNW
+	vpHandshake
+	vpReadMoreBeforeWait
+	vpFlushStateChecked
+	vpFlushPut
+	vpFallbackBeforeSend
+	vpStreamCloseEnter
+	vpStreamCloseCASed
+	vpStreamCloseBeforeNotify
+	vpHalfClosed
+	vpFillAdded
+	vpFillBeforeNotify
+	vpFillBeforeCbCAS
+	vpCbBeforeStore0
+	vpCbAfterStore0
+	vpCbBeforeRecheck
+	vpSMWatcherLost
+	vpSMRebuildBefore
+	vpSMRebuildAfter
+	vpSMHotRestartBeforeNew
+	vpSMHotRestartAfterNew
+	vpPoolPopped
+	vpPoolBeforePush
+	vpLnHotRestartSent
+	vpLnAck
+	vpConnWriteEnter
+	vpConnWriteExit
+	vpConnWriteEAGAIN
+	vpConnWritePartial
+	vpConnRead
+	vpPointCount
+)
+
+// With the verif build tag off every hook is an empty, inlinable function.
+
+func vp(point int) {}
+
+func vpo(point int, obj interface{}, n int64) {}
+
+func vpPopBegin(b *bufferList) uint64 { return 0 }
+
+func vpPopReload(b *bufferList) uint64 { return 0 }
+
+func vpPopWon(b *bufferList, slotOffset uint32, begin uint64) {}
